@@ -72,18 +72,28 @@ Proof.
 Qed.
 
 (* FIELD_TO_DEFAULT: the WRITER side is harmless in itself (every write is admissible) *)
-Lemma M_p_defaults : forall cd K c r, (forall K', incl K K' -> M K' c r) -> M K (p_defaults cd c) r.
+Lemma M_fill_defaults : forall cd K k r, (forall K', incl K K' -> M K' k r) ->
+  M K (Yield Y_defaults_registered
+         (p_fields (for_fields (cd_fields cd) 0
+            (fun i f k => Yield Y_defaults_fill (if fd_dflt f then Wr T_DEFAULTS i VU k else k)) k))) r.
 Proof.
-  intros cd K c r Hc. unfold p_defaults. apply MP_rd.
-  - intros _ _. apply MP_yield. apply MP_wr; [exact I | inc |]. apply MP_yield.
-    apply M_p_fields. intros K1 H1.
-    apply M_for_fields with (P := fun _ => True).
-    + clear. induction (cd_fields cd); constructor; auto.
-    + intros i f k K' _ Hi Hk. apply MP_yield. destruct (fd_dflt f).
-      * apply MP_wr; [exact I | inc |]. apply Hk. inc.
-      * apply Hk. inc.
-    + intros K' Hi. apply M_rd_known; [apply Hi, H1; now left|].
-      intros v _. cbn [need]. apply Hc. inc.
+  intros cd K k r Hk. apply MP_yield. apply M_p_fields. intros K1 H1.
+  apply M_for_fields with (P := fun _ => True).
+  - clear. induction (cd_fields cd); constructor; auto.
+  - intros i f k0 K' _ Hi Hk0. apply MP_yield. destruct (fd_dflt f).
+    + apply MP_wr; [exact I | inc |]. apply Hk0. inc.
+    + apply Hk0. inc.
+  - intros K' Hi. apply Hk. inc.
+Qed.
+
+Lemma M_p_defaults : forall fx cd K c r, (forall K', incl K K' -> M K' c r) -> M K (p_defaults fx cd c) r.
+Proof.
+  intros fx cd K c r Hc. unfold p_defaults. apply MP_rd.
+  - intros _ _. apply MP_yield. destruct (fx32 fx).
+    + apply M_fill_defaults. intros K1 H1. apply MP_wr; [exact I | inc |].
+      apply M_rd_known; [now left|]. intros v _. cbn [need]. apply Hc. inc.
+    + apply MP_wr; [exact I | inc |]. apply M_fill_defaults. intros K1 H1.
+      apply M_rd_known; [apply H1; now left|]. intros v _. cbn [need]. apply Hc. inc.
   - intros v _. apply M_rd_known; [now left|]. intros v2 _. cbn [need]. apply Hc. inc.
 Qed.
 
@@ -115,10 +125,10 @@ Definition no_paths (cd : cdesc) : Prop := Forall (fun f => fd_path f = false) (
 Lemma size_path_empty : forall K c r, M K (c 0) r -> M K (Size T_PATH c) r.
 Proof. intros. apply MP_size_empty; auto. Qed.
 
-Lemma M_p_load_cfg : forall cd K c r, no_paths cd ->
-  (forall K', incl K K' -> M K' c r) -> M K (p_load_cfg cd c) r.
+Lemma M_p_load_cfg : forall fx cd K c r, no_paths cd ->
+  (forall K', incl K K' -> M K' c r) -> M K (p_load_cfg fx cd c) r.
 Proof.
-  intros cd K c r Hnp Hc. unfold p_load_cfg. apply MP_rd.
+  intros fx cd K c r Hnp Hc. unfold p_load_cfg. apply MP_rd.
   - intros _ _. apply size_path_empty. cbn [Nat.eqb]. apply MP_yield.
     apply M_p_fields. intros K1 H1.
     apply M_for_fields with (P := fun f => fd_path f = false); [exact Hnp | |].
@@ -127,10 +137,10 @@ Proof.
   - intros v _. apply M_rd_known; [now left|]. intros v2 _. cbn [need]. apply Hc. inc.
 Qed.
 
-Lemma M_p_dump_cfg : forall cd K c r, no_paths cd ->
-  (forall K', incl K K' -> M K' c r) -> M K (p_dump_cfg cd c) r.
+Lemma M_p_dump_cfg : forall fx cd K c r, no_paths cd ->
+  (forall K', incl K K' -> M K' c r) -> M K (p_dump_cfg fx cd c) r.
 Proof.
-  intros cd K c r Hnp Hc. unfold p_dump_cfg. apply MP_rd.
+  intros fx cd K c r Hnp Hc. unfold p_dump_cfg. apply MP_rd.
   - intros _ _. apply MP_yield. apply size_path_empty. cbn [Nat.eqb]. apply MP_yield.
     apply M_p_fields. intros K1 H1.
     apply M_for_fields with (P := fun f => fd_path f = false); [exact Hnp | |].
@@ -168,9 +178,9 @@ Proof.
 Qed.
 
 (* ------------------------------------------------ complete programs, safe region *)
-Theorem load_plain : forall tid cd ks K, no_paths cd -> M K (call_load tid cd ks) [OSeq].
+Theorem load_plain : forall fx tid cd ks K, no_paths cd -> M K (call_load fx tid cd ks) [OSeq].
 Proof.
-  intros tid cd ks K Hnp. unfold call_load. apply MP_rd.
+  intros fx tid cd ks K Hnp. unfold call_load. apply MP_rd.
   - intros _ _. apply MP_yield. unfold gen_load. apply MP_yield.
     apply M_p_fields. intros K1 H1. apply M_p_loader. intros K2 H2.
     apply M_p_load_cfg; [assumption|]. intros K3 H3.
@@ -187,29 +197,60 @@ Definition base_val (v : vty) : Prop := exists b, v = VTBase b /\ b < NBASE.
 Definition safe_dump (cd : cdesc) : Prop :=
   no_paths cd /\ (cd_skipdef cd = false \/ dflt_ids (cd_fields cd) 0 = []).
 
-Lemma M_p_value : forall o v K c r, base_val v -> (forall K', incl K K' -> M K' c r) -> M K (p_value o v c) r.
+Lemma M_p_value : forall fx o v K c r, base_val v -> (forall K', incl K K' -> M K' c r) -> M K (p_value fx o v c) r.
 Proof.
-  intros o v K c r (b & -> & Hb) Hc. unfold p_value. cbn [tkey_of]. apply MP_rd.
+  intros fx o v K c r (b & -> & Hb) Hc. unfold p_value. cbn [tkey_of]. apply MP_rd.
   - intros _ Hst. exfalso. cbn [static_val] in Hst.
     apply Nat.ltb_lt in Hb. rewrite Hb in Hst. discriminate.
   - intros v _. apply Hc. inc.
 Qed.
 
-Lemma M_dump_values : forall cd o skip vals i K c r, Forall base_val vals ->
-  (forall K', incl K K' -> M K' c r) -> M K (dump_values cd o skip i vals c) r.
+(* the REPAIRED hook scan (`for t in tuple(hooks)`) is memo-shaped for EVERY value type *)
+Lemma M_hook_scan_snap : forall l o v K c r,
+  (forall t, In t l -> In (T_HOOKS o, t) K) -> (forall K', incl K K' -> M K' c r) ->
+  M K (hook_scan_snap l o v c) r.
 Proof.
-  intros cd o skip vals. induction vals as [|v vals IH]; intros i K c r Hv Hc; cbn [dump_values].
-  - apply Hc. inc.
-  - inversion Hv; subst. destruct (cd_skipdef cd && mem i skip).
-    + now apply IH.
-    + apply M_p_value; [assumption|]. intros K' Hi. apply IH; [assumption|].
-      intros K'' Hi'. apply Hc. inc.
+  induction l as [|t l IH]; intros o v K c r Hl Hc; cbn [hook_scan_snap].
+  - apply MP_yield. apply MP_wr; [exact I | inc |]. apply Hc. inc.
+  - apply MP_yield. destruct (matches v t).
+    + apply MP_yield. apply M_rd_known; [apply Hl; now left|]. intros hv _. cbn [need Imp_lib app].
+      apply MP_wr; [exact I | inc |]. apply Hc. inc.
+    + apply IH; [|assumption]. intros t' Ht. apply Hl. now right.
 Qed.
 
-Lemma M_run_dump_fn : forall cd o skip vals K, safe_dump cd -> Forall base_val vals ->
-  M K (run_dump_fn cd (o :: skip) vals) [OSeq].
+Lemma M_p_value_repaired : forall fx o v K c r, fx30 fx = true ->
+  (forall K', incl K K' -> M K' c r) -> M K (p_value fx o v c) r.
 Proof.
-  intros cd o skip vals K [Hnp Hs] Hv. unfold run_dump_fn.
+  intros fx o v K c r Hfx Hc. unfold p_value. apply MP_rd.
+  - intros _ _. apply MP_yield. rewrite Hfx. apply MP_keys. intro l.
+    apply M_hook_scan_snap.
+    + intros t Ht. apply in_or_app. left. apply in_map_iff. now exists t.
+    + intros K' Hi. apply Hc. intros x Hx. apply Hi. apply in_or_app. now right.
+  - intros hv _. apply Hc. inc.
+Qed.
+
+Definition vals_ok (fx : fixes) (vals : list vty) : Prop := fx30 fx = true \/ Forall base_val vals.
+
+Lemma M_dump_values : forall fx cd o skip vals i K c r, vals_ok fx vals ->
+  (forall K', incl K K' -> M K' c r) -> M K (dump_values fx cd o skip i vals c) r.
+Proof.
+  intros fx cd o skip vals. induction vals as [|v vals IH]; intros i K c r Hv Hc; cbn [dump_values].
+  - apply Hc. inc.
+  - assert (Hv' : vals_ok fx vals).
+    { destruct Hv as [Hv|Hv]; [now left | right; now inversion Hv]. }
+    destruct (cd_skipdef cd && mem i skip).
+    + now apply IH.
+    + assert (Hrest : forall K', incl K K' -> M K' (dump_values fx cd o skip (Datatypes.S i) vals c) r).
+      { intros K' Hi. apply IH; [assumption|]. intros K'' Hi'. apply Hc. inc. }
+      destruct Hv as [Hv|Hv].
+      * now apply M_p_value_repaired.
+      * inversion Hv; subst. now apply M_p_value.
+Qed.
+
+Lemma M_run_dump_fn : forall fx cd o skip vals K, safe_dump cd -> vals_ok fx vals ->
+  M K (run_dump_fn fx cd (o :: skip) vals) [OSeq].
+Proof.
+  intros fx cd o skip vals K [Hnp Hs] Hv. unfold run_dump_fn.
   apply M_dump_values; [assumption|]. intros K' _.
   replace (cd_skipdef cd && negb (subset (dflt_ids (cd_fields cd) 0) skip)) with false; [constructor|].
   destruct Hs as [-> | ->]; [reflexivity|]. cbn [subset forallb negb]. now rewrite andb_false_r.
@@ -233,10 +274,10 @@ Proof.
       now elim Hav.
 Qed.
 
-Theorem dump_plain : forall tid cd vals K, safe_dump cd -> Forall base_val vals ->
-  M K (call_dump tid cd vals) [OSeq].
+Theorem dump_plain : forall fx tid cd vals K, safe_dump cd -> vals_ok fx vals ->
+  M K (call_dump fx tid cd vals) [OSeq].
 Proof.
-  intros tid cd vals K Hs Hv. pose proof Hs as [Hnp _]. unfold call_dump. apply MP_rd.
+  intros fx tid cd vals K Hs Hv. pose proof Hs as [Hnp _]. unfold call_dump. apply MP_rd.
   - intros _ _. apply MP_yield. unfold gen_dump. apply MP_yield.
     apply M_p_dumper. intros o K1 H1.
     apply M_p_dump_cfg; [assumption|]. intros K2 H2. apply MP_yield.
@@ -272,42 +313,42 @@ Proof.
     apply M_rd_known; [now left|]. intros v ->. cbn [content Imp_lib app]. apply Hc. inc.
 Qed.
 
-Theorem env_plain : forall tid K, M K (call_env tid false) [OSeq].
+Theorem env_plain : forall fx tid K, M K (call_env fx tid false) [OSeq].
 Proof.
-  intros tid K. unfold call_env. apply M_p_load_environ. intros K1 H1 He.
+  intros fx tid K. unfold call_env. apply M_p_load_environ. intros K1 H1 He.
   apply M_p_member; [assumption|]. intros K2 H2. cbn [Nat.eqb]. constructor.
 Qed.
 
 (* ------------------------------------------------------------ whole threads *)
-Definition safe_call (cd : cdesc) (c : call) : Prop :=
+Definition safe_call (fx : fixes) (cd : cdesc) (c : call) : Prop :=
   match c with
   | CLoad _ => no_paths cd
-  | CDump vals => safe_dump cd /\ Forall base_val vals
+  | CDump vals => safe_dump cd /\ vals_ok fx vals
   | CEnv reload => reload = false
   end.
 
-Lemma M_call : forall tid cd c K, safe_call cd c -> M K (call_prog tid cd c) [OSeq].
+Lemma M_call : forall fx tid cd c K, safe_call fx cd c -> M K (call_prog fx tid cd c) [OSeq].
 Proof.
-  intros tid cd [ks|vals|reload] K H; cbn [call_prog safe_call] in *.
+  intros fx tid cd [ks|vals|reload] K H; cbn [call_prog safe_call] in *.
   - now apply load_plain.
   - destruct H. now apply dump_plain.
   - subst. apply env_plain.
 Qed.
 
-Lemma M_thread : forall tid cd cs K, Forall (safe_call cd) cs ->
-  M K (thread_prog tid cd cs) (repeat OSeq (List.length cs)).
+Lemma M_thread : forall fx tid cd cs K, Forall (safe_call fx cd) cs ->
+  M K (thread_prog fx tid cd cs) (repeat OSeq (List.length cs)).
 Proof.
-  intros tid cd cs. induction cs as [|c cs IH]; intros K H; cbn [thread_prog List.length repeat].
+  intros fx tid cd cs. induction cs as [|c cs IH]; intros K H; cbn [thread_prog List.length repeat].
   - constructor.
   - inversion H; subst.
     eapply memo_bind; [now apply M_call|]. intros K1 Hi1.
     eapply memo_bind; [now apply IH|]. intros K2 Hi2. cbn [app]. constructor.
 Qed.
 
-Lemma M_threads : forall cd pss tid, Forall (Forall (safe_call cd)) pss ->
-  Forall2 (fun p r => M [] p r) (thread_progs tid cd pss) (map (fun cs => repeat OSeq (List.length cs)) pss).
+Lemma M_threads : forall fx cd pss tid, Forall (Forall (safe_call fx cd)) pss ->
+  Forall2 (fun p r => M [] p r) (thread_progs fx tid cd pss) (map (fun cs => repeat OSeq (List.length cs)) pss).
 Proof.
-  intros cd pss. induction pss as [|cs pss IH]; intros tid H; cbn [thread_progs map]; constructor.
+  intros fx cd pss. induction pss as [|cs pss IH]; intros tid H; cbn [thread_progs map]; constructor.
   - inversion H; subst. now apply M_thread.
   - inversion H; subst. now apply IH.
 Qed.
@@ -326,15 +367,15 @@ Qed.
 
 (* every call of every thread returns its sequential result, under every schedule *)
 Theorem lib_linearizable :
-  forall (cd : cdesc) (pss : list (list call)),
-    Forall (Forall (safe_call cd)) pss ->
+  forall (fx : fixes) (cd : cdesc) (pss : list (list call)),
+    Forall (Forall (safe_call fx cd)) pss ->
     forall (sched : list nat) (i : nat) (t : thread) (os : list outcome),
-      nth_error (snd (run sched (scenario cd pss))) i = Some t ->
+      nth_error (snd (run sched (scenario fx cd pss))) i = Some t ->
       finished t = Some os ->
       exists cs, nth_error pss i = Some cs /\ os = repeat OSeq (List.length cs).
 Proof.
-  intros cd pss Hsafe sched i t os Hn Hf. unfold scenario in Hn.
-  destruct (memo_linearizable R_lib Imp_lib _ _ _ (initial_store_ok cd) (M_threads cd pss 0 Hsafe)
+  intros fx cd pss Hsafe sched i t os Hn Hf. unfold scenario in Hn.
+  destruct (memo_linearizable R_lib Imp_lib _ _ _ (initial_store_ok cd) (M_threads fx cd pss 0 Hsafe)
               sched i t os Hn Hf) as [Hr _].
   rewrite nth_error_map in Hr. destruct (nth_error pss i) as [cs|]; [|discriminate].
   exists cs. split; [reflexivity|]. now inversion Hr.
@@ -350,23 +391,35 @@ Definition IDX_str : nat := 0.
 
 (* A: dump of a `class MyDict(dict)` value, B: dump of a `class MyStr(str)` value (field typed Any) *)
 Definition cfg_hook_scan : config :=
-  scenario cd_any1 [[CDump [VTSub 0 IDX_dict]]; [CDump [VTSub 1 IDX_str]]].
+  scenario no_fixes cd_any1 [[CDump [VTSub 0 IDX_dict]]; [CDump [VTSub 1 IDX_str]]].
 (* A runs until it is inside `for t in hooks` (1st arrival at hook_scan.iter), B runs to its end, A resumes *)
 Definition seg_hook_scan : list nat := repeat 0 16 ++ repeat 1 4 ++ [0].
 
-Definition cfg_path_dump : config := scenario cd_paths2 [[CDump [VTBase 1; VTBase 1]]; [CDump [VTBase 1; VTBase 1]]].
+Definition cfg_path_dump : config := scenario no_fixes cd_paths2 [[CDump [VTBase 1; VTBase 1]]; [CDump [VTBase 1; VTBase 1]]].
 Definition seg_path_dump : list nat := repeat 0 8 ++ repeat 1 20 ++ repeat 0 10.
-Definition cfg_path_load : config := scenario cd_paths2 [[CLoad [KPathTop]]; [CLoad [KPathTop]]].
+Definition cfg_path_load : config := scenario no_fixes cd_paths2 [[CLoad [KPathTop]]; [CLoad [KPathTop]]].
 Definition seg_path_load : list nat := repeat 0 7 ++ repeat 1 20 ++ repeat 0 10.
 
-Definition cfg_defaults : config := scenario cd_dflt2 [[CDump [VTBase 1; VTBase 1]]; [CDump [VTBase 1; VTBase 1]]].
+Definition cfg_defaults : config := scenario no_fixes cd_dflt2 [[CDump [VTBase 1; VTBase 1]]; [CDump [VTBase 1; VTBase 1]]].
 Definition seg_defaults : list nat := repeat 0 11 ++ repeat 1 10 ++ repeat 0 10.
 
-Definition cfg_v1_catchall : config := ([], start [call_v1_catchall; call_v1_catchall]).
+Definition cfg_v1_catchall : config := ([], start [call_v1_catchall no_fixes; call_v1_catchall no_fixes]).
 Definition seg_v1_catchall : list nat := [0; 0; 0; 1; 1; 1; 1; 0; 0].
 
-Definition cfg_env_reload : config := scenario cd_any1 [[CEnv false]; [CEnv true]].
+Definition cfg_env_reload : config := scenario no_fixes cd_any1 [[CEnv false]; [CEnv true]].
 Definition seg_env_reload : list nat := [1; 1; 0; 0; 0; 0; 1; 1].
 
 Definition sequential2 : list nat := repeat 0 400 ++ repeat 1 400.
 Definition sequential2' : list nat := repeat 1 400 ++ repeat 0 400.
+
+(* the same scenarios with the proposed repairs switched on (proposed_fixes/F30..F34.patch) *)
+Definition all_fixes : fixes := mkX true true true true true.
+Definition fixed_hook_scan : config :=
+  scenario all_fixes cd_any1 [[CDump [VTSub 0 IDX_dict]]; [CDump [VTSub 1 IDX_str]]].
+Definition fixed_path_dump : config := scenario all_fixes cd_paths2 [[CDump [VTBase 1; VTBase 1]]; [CDump [VTBase 1; VTBase 1]]].
+Definition fixed_path_load : config := scenario all_fixes cd_paths2 [[CLoad [KPathTop]]; [CLoad [KPathTop]]].
+Definition fixed_defaults : config := scenario all_fixes cd_dflt2 [[CDump [VTBase 1; VTBase 1]]; [CDump [VTBase 1; VTBase 1]]].
+Definition fixed_v1_catchall : config := ([], start [call_v1_catchall all_fixes; call_v1_catchall all_fixes]).
+Definition fixed_env_reload : config := scenario all_fixes cd_any1 [[CEnv false]; [CEnv true]].
+Definition replay_on (seg : list nat) (c : config) : list (option (list outcome)) :=
+  outcomes (run (micro_of RUN_FUEL seg c ++ sequential2) c).
